@@ -64,7 +64,7 @@ example : decodeTag (encodeTag ⟨.priv, false, 16384⟩ true ++ [7]) = .ok (⟨
       * decoding with any type `t'` of the same tagging depth whose tags differ in class or number
         at any level is rejected. -/
 theorem wire_tags_are_type_tags (defMode : Bool) (maxChunk : Nat) (t : Ty) (v : Val) (b tail : Bytes)
-    (hreg : t.reg Generated.berEnc defMode = true) (hwf : t.WF = true) (hty : HasType t v = true)
+    (hreg : t.reg false Generated.berEnc defMode = true) (hwf : t.WF = true) (hty : HasType t v = true)
     (h : encItem Generated.berEnc { defMode := defMode, maxChunk := maxChunk } t v = .ok b) :
     ∃ x : TLV, parseOne Generated.berDecByType.parse (b ++ tail) = .ok (x, tail) ∧
       Carries t.tags.reverse x ∧
@@ -77,7 +77,7 @@ theorem wire_tags_are_type_tags (defMode : Bool) (maxChunk : Nat) (t : Ty) (v : 
       bool := by intro b hd tg; cases b <;> rfl }
   obtain ⟨x, hb, hxw, _, _, hxd⟩ := encode_good Generated.berEnc Generated.berDecByType _ hR t v b hreg hwf hty h
   subst hb
-  have hna := reg_not_any Generated.berEnc defMode t hreg
+  have hna := reg_not_any false Generated.berEnc defMode t hreg
   have hp := parseOne_ser Generated.berDecByType.parse x tail hxw (Or.inl rfl)
   refine ⟨x, hp, decTy_carries _ t x v hna hxw hxd, ?_, ?_⟩
   · simp only [decodeOne, hp, hxd, Except.map]
@@ -89,7 +89,7 @@ theorem wire_tags_are_type_tags (defMode : Bool) (maxChunk : Nat) (t : Ty) (v : 
 example :
     let t : Ty := .tagged true .context 1 (.tagged false .application 31 (.prim .integer))
     let t' : Ty := .tagged true .context 1 (.tagged false .application 30 (.prim .integer))
-    t.reg Generated.berEnc true = true ∧ t.WF = true ∧ isAnyBase t' = false ∧
+    t.reg false Generated.berEnc true = true ∧ t.WF = true ∧ isAnyBase t' = false ∧
       t.tags.length = t'.tags.length ∧ tagsDiffer t.tags.reverse t'.tags.reverse = true := by
   decide
 
